@@ -264,7 +264,7 @@ func natSlicesSorted(c *callCtx) []cont {
 	n := "E|" + short(typeKey(rt.Elem())) + "|"
 	arr := st.get(n, SArr(SRef, SArr(SInt, ks)))
 	elems := Fresh("sortedkeys", SArr(SInt, ks))
-	c.ex.set(st, n, Store(arr, r, elems))
+	c.ex.setAt(st, n, Store(arr, r, elems), r)
 	j := BVar("j", SInt)
 	k := BVar("k", ks)
 	inr := And(Le(IntLit(0, SInt), j), Lt(j, ln))
